@@ -114,6 +114,8 @@ fn cmd_run(args: &[String]) -> i32 {
     let logs_path = arg(args, "--logs").map(|s| s.to_string());
     let max_viol: usize = arg(args, "--max-violations").and_then(|s| s.parse().ok()).unwrap_or(5);
     let no_shrink = flag(args, "--no-shrink");
+    // only violations that are evidence against this property count ("any" = all of them)
+    let prop_filter = arg(args, "--prop").unwrap_or(&focus).to_string();
     // stop handing out new runs once this file exists (wall-clock budget is the Python driver's business)
     let stop_file = arg(args, "--stop-file").map(|s| s.to_string());
 
@@ -139,6 +141,7 @@ fn cmd_run(args: &[String]) -> i32 {
         let focus = focus.clone();
         let replay_dir = replay_dir.clone();
         let stop_file = stop_file.clone();
+        let prop_filter = prop_filter.clone();
         let want_logs = logs_path.is_some();
         handles.push(
             std::thread::Builder::new()
@@ -160,9 +163,15 @@ fn cmd_run(args: &[String]) -> i32 {
                     let plan = generate(&family, &focus, seed, run, thorough);
                     let res = exec::execute(&plan);
                     let mut viol_json = None;
+                    let mut foreign = None;
                     if let Some(v) = &res.violation {
+                        if prop_filter != "any" && !v.props.contains(&prop_filter) {
+                            foreign = Some(format!("foreign:{}:{}", v.props.join("+"), v.class));
+                        }
+                    }
+                    if let (Some(v), None) = (&res.violation, &foreign) {
                         let (splan, sv) = if no_shrink { (plan.clone(), v.clone()) } else { shrink::shrink(&plan, v) };
-                        let prop = if sv.props.contains(&focus) { focus.clone() } else { sv.props.first().cloned().unwrap_or(focus.clone()) };
+                        let prop = if sv.props.contains(&prop_filter) { prop_filter.clone() } else { sv.props.first().cloned().unwrap_or(focus.clone()) };
                         let signature = shrink::signature(&splan, &sv);
                         let rf = ReplayFile {
                             version: 1,
@@ -193,6 +202,9 @@ fn cmd_run(args: &[String]) -> i32 {
                         }));
                     }
                     let mut s = shared.lock().unwrap();
+                    if let Some(f) = foreign {
+                        simcore::bump(&mut s.counters, &f);
+                    }
                     merge(&mut s.counters, &res.counters);
                     merge(&mut s.gen_counters, &plan.faults);
                     s.executed += res.executed;
